@@ -86,6 +86,8 @@ def close(a, b, rtol=RTOL, atol=0.0, scale=None):
     if a[0] != b[0]:
         return False
     if a[0] == "q":
+        if not (math.isfinite(a[2]) and math.isfinite(b[2])):
+            return a[1] == b[1] and (a[2] == b[2] or (math.isnan(a[2]) and math.isnan(b[2])))     # the same infinity / both undefined
         return a[1] == b[1] and abs(a[2] - b[2]) <= atol + rtol * max(abs(a[2]), abs(b[2]), scale or 0.0)
     if a[0] == "h":
         if a[1] != b[1] or a[2] != b[2]:
@@ -95,8 +97,20 @@ def close(a, b, rtol=RTOL, atol=0.0, scale=None):
             da, db = dict(zip(a[3], a[4])), dict(zip(b[3], b[4]))
             m = max([abs(x) for x in a[4]] + [abs(x) for x in b[4]] + [scale or 0.0])
             return all(abs(da.get(t, 0.0) - db.get(t, 0.0)) <= atol + rtol * m for t in set(da) | set(db))
-        m = max(float(np.max(np.abs(a[4]))) if len(a[4]) else 0.0, float(np.max(np.abs(b[4]))) if len(b[4]) else 0.0, scale or 0.0)
-        return bool(np.all(np.abs(a[4] - b[4]) <= atol + rtol * m))
+        fa, fb = np.isfinite(a[4]), np.isfinite(b[4])
+        if not (fa.all() and fb.all()):
+            # degenerate models publish infinities (zero available capacity): the same infinity / both undefined at the same hours,
+            # the finite hours compared as usual
+            if not np.array_equal(fa, fb):
+                return False
+            xa, xb = a[4][~fa], b[4][~fb]
+            if not np.all((xa == xb) | (np.isnan(xa) & np.isnan(xb))):
+                return False
+            a4, b4 = a[4][fa], b[4][fb]
+        else:
+            a4, b4 = a[4], b[4]
+        m = max(float(np.max(np.abs(a4))) if len(a4) else 0.0, float(np.max(np.abs(b4))) if len(b4) else 0.0, scale or 0.0)
+        return bool(np.all(np.abs(a4 - b4) <= atol + rtol * m))
     if a[0] == "d":
         return True   # key sets are compared through the entries (empty == absent)
     return a == b
@@ -160,6 +174,13 @@ def ceil_boundary_ambiguous(system):
             amb = (np.abs(arr - r) < np.maximum(1e-9, 1e-11 * np.abs(arr))) & (arr != r)
             if np.any(amb):
                 return True
+            # a user-fixed count that equals the peak need to within the same tolerance: whether "need <= count" holds is decided by
+            # floating point (an exactly integral need included: any rebuild may land a hair above it)
+            fx = o.__dict__.get("fixed_nb_of_instances")
+            if isinstance(fx, E.ExplainableQuantity) and len(arr) and np.all(np.isfinite(arr)):
+                F = float(fx.value.to("dimensionless").magnitude); mx = float(np.max(arr))
+                if abs(mx - F) < max(1e-9, 1e-11 * abs(F)):
+                    return True
     return False
 
 
